@@ -804,13 +804,37 @@ fn text_eq(t: &mut Toks) -> PResult<String> {
     let a = lex_name(t.next()?)?;
     let b = lex_name(t.next()?)?;
     t.end()?;
+    // label by label: `Label == Label`, `Label == &str` (both directions) and the label hashes must tell the same
+    // story as the name comparison (a disagreement is an extra token the model never prints)
+    let mut label_story = a.len() == b.len();
+    let mut str_story = a.len() == b.len();
+    let mut label_hash_story = a.len() == b.len();
+    if a.len() == b.len() {
+        for (x, y) in a.iter().zip(b.iter()) {
+            let sx = fit_string(x)?;
+            let sy = fit_string(y)?;
+            let lx = Label::try_from(sx.clone()).map_err(|_| PErr::Uncon)?;
+            let ly = Label::try_from(sy.clone()).map_err(|_| PErr::Uncon)?;
+            label_story &= lx == ly;
+            str_story &= (lx == sy.as_str()) && (ly == sx.as_str());
+            label_hash_story &= default_hash(&lx) == default_hash(&ly);
+        }
+    }
     let a = build_name(&a)?;
     let b = build_name(&b)?;
-    Ok(format!(
+    let eq = a == b;
+    let mut out = format!(
         "eq={} hasheq={}",
-        (a == b) as u8,
+        eq as u8,
         (default_hash(&a) == default_hash(&b)) as u8
-    ))
+    );
+    if label_story != eq || str_story != eq || (eq && !label_hash_story) {
+        out.push_str(&format!(
+            " LABEL-EQ-MISMATCH labels={} strs={} labelhashes={}",
+            label_story as u8, str_story as u8, label_hash_story as u8
+        ));
+    }
+    Ok(out)
 }
 
 // ---------------------------------------------------------------------------------------------
